@@ -97,9 +97,9 @@ Proof.
 Qed.
 
 (** ** names (ID, ID_OR_EDGE) *)
-(* what follows a name: a blank or a parenthesis *)
+(* what follows a plain name: a parenthesis or any white-space character (or nothing) *)
 Definition name_end (s : string) : bool :=
-  match s with String c _ => is_paren c || Ascii.eqb c c_sp | EmptyString => true end.
+  match s with String c _ => is_paren c || is_ws c | EmptyString => true end.
 Lemma b1_sep_text : forall r, forallb b1_only r = true -> sall is_b1 (sep_text r) = true.
 Proof.
   induction r as [|i r IH]; intro H; [reflexivity|].
@@ -121,54 +121,366 @@ Proof.
   destruct (Ascii.eqb c c_nl) eqn:E1; [apply Ascii.eqb_eq in E1; subst c; discriminate H|].
   destruct (Ascii.eqb c c_cr) eqn:E2; [apply Ascii.eqb_eq in E2; subst c; discriminate H|]. reflexivity.
 Qed.
-Lemma id_skip_sep : forall s X, idsep_ok s = true -> stops is_ws X = true -> id_skip (sep_text s ++ X)%string = X.
+
+(* the scanners only ever drop a prefix *)
+Lemma span_snd_len : forall p s, String.length (snd (span p s)) <= String.length s.
 Proof.
-  intros [|i r] X Hs HX; [discriminate Hs|]. destruct i; try discriminate Hs. cbn [idsep_ok] in Hs.
-  rewrite sep_cons_space. unfold id_skip. cbn [id_skip_go]. change (is_b1 c_sp) with true. cbv iota. cbn [span].
-  change (is_b1 c_sp) with true. cbv iota.
-  assert (HX1 : stops is_b1 X = true).
-  { destruct X as [|c t]; [reflexivity|]. cbn [stops] in *. apply negb_true_iff in HX. now rewrite (ws_not_b1 _ HX). }
-  rewrite (span_app _ _ _ (b1_sep_text _ Hs) HX1). cbn [snd]. apply id_skip_go_stop. exact HX.
+  intros p. induction s as [|c r IH]; [apply le_n|]. cbn [span]. destruct (p c); [|apply le_n].
+  destruct (span p r) as [a b]. cbn [snd String.length] in *. lia.
 Qed.
-Lemma idsep_name_end : forall s X, idsep_ok s = true -> name_end (sep_text s ++ X)%string = true.
-Proof. intros [|i r] X Hs; [discriminate Hs|]. destruct i; try discriminate Hs. reflexivity. Qed.
+Lemma span_snd_true : forall p c r, p c = true -> snd (span p (String c r)) = snd (span p r).
+Proof. intros p c r H. cbn [span]. rewrite H. destruct (span p r); reflexivity. Qed.
+Lemma skip_go_len : forall b1 n s cm, String.length s <= n -> String.length (skip_go b1 cm s) <= String.length s.
+Proof.
+  intros b1. induction n as [|n IH]; intros s cm Hn.
+  - destruct s; [apply le_n | cbn in Hn; lia].
+  - destruct s as [|x w]; [apply le_n|]. cbn [String.length] in Hn. cbn [skip_go]. destruct cm.
+    + destruct (Ascii.eqb x c_nl); (eapply Nat.le_trans; [apply IH; lia | cbn [String.length]; lia]).
+    + destruct ((b1 && is_b1 x) || Ascii.eqb x c_nl); [eapply Nat.le_trans; [apply IH; lia | cbn [String.length]; lia]|].
+      destruct (Ascii.eqb x c_cr).
+      * destruct w as [|y w']; [apply le_n|]. destruct (Ascii.eqb y c_nl); [|apply le_n].
+        cbn [String.length] in *. eapply Nat.le_trans; [apply IH; lia | lia].
+      * destruct (Ascii.eqb x c_slash); [|apply le_n]. destruct w as [|y w']; [apply le_n|]. destruct (Ascii.eqb y c_slash); [|apply le_n].
+        cbn [String.length] in *. eapply Nat.le_trans; [apply IH; lia | lia].
+Qed.
+Lemma skip0_len : forall s, String.length (skip0 s) <= String.length s.
+Proof. intro s. exact (skip_go_len false _ s false (le_n _)). Qed.
+Lemma skip0_nl : forall r, skip0 (String c_nl r) = skip0 r.
+Proof. reflexivity. Qed.
+Lemma skip0_crnl : forall r, skip0 (String c_cr (String c_nl r)) = skip0 r.
+Proof. reflexivity. Qed.
+
+(* [id_skip]: the fuel does not matter; one step at a time *)
+Lemma id_skip_go_fuel : forall f1 f2 s, String.length s < f1 -> String.length s < f2 -> id_skip_go f1 s = id_skip_go f2 s.
+Proof.
+  induction f1 as [|f1 IH]; intros f2 s H1 H2; [lia|]. destruct f2 as [|f2]; [lia|].
+  destruct s as [|c r]; [reflexivity|]. cbn [String.length] in H1, H2. cbn [id_skip_go].
+  destruct (is_b1 c) eqn:Eb.
+  - rewrite (span_snd_true _ _ _ Eb). pose proof (span_snd_len is_b1 r). apply IH; lia.
+  - destruct (Ascii.eqb c c_nl) eqn:E1.
+    + apply Ascii.eqb_eq in E1. subst c. rewrite skip0_nl. pose proof (skip0_len r). apply IH; lia.
+    + destruct (Ascii.eqb c c_cr) eqn:E2; [|reflexivity]. destruct r as [|c2 r2]; [reflexivity|].
+      destruct (Ascii.eqb c2 c_nl) eqn:E3; [|reflexivity].
+      apply Ascii.eqb_eq in E2, E3. subst c c2. rewrite skip0_crnl. pose proof (skip0_len r2). cbn [String.length] in *. apply IH; lia.
+Qed.
+Lemma id_skip_go_len : forall f s, String.length (id_skip_go f s) <= String.length s.
+Proof.
+  induction f as [|f IH]; intro s; [apply le_n|]. destruct s as [|c r]; [apply le_n|]. cbn [id_skip_go].
+  destruct (is_b1 c) eqn:Eb.
+  - rewrite (span_snd_true _ _ _ Eb). eapply Nat.le_trans; [apply IH|]. pose proof (span_snd_len is_b1 r). cbn [String.length]. lia.
+  - destruct (Ascii.eqb c c_nl) eqn:E1.
+    + apply Ascii.eqb_eq in E1. subst c. rewrite skip0_nl. eapply Nat.le_trans; [apply IH|]. pose proof (skip0_len r). cbn [String.length]. lia.
+    + destruct (Ascii.eqb c c_cr) eqn:E2; [|apply le_n]. destruct r as [|c2 r2]; [apply le_n|].
+      destruct (Ascii.eqb c2 c_nl) eqn:E3; [|apply le_n].
+      apply Ascii.eqb_eq in E2, E3. subst c c2. rewrite skip0_crnl. eapply Nat.le_trans; [apply IH|]. pose proof (skip0_len r2). cbn [String.length]. lia.
+Qed.
+Lemma id_skip_go_S : forall f c r, id_skip_go (S f) (String c r) =
+  if is_b1 c then id_skip_go f (snd (span is_b1 (String c r)))
+  else if Ascii.eqb c c_nl then id_skip_go f (skip0 (String c r))
+  else if Ascii.eqb c c_cr then
+    match r with String c2 _ => if Ascii.eqb c2 c_nl then id_skip_go f (skip0 (String c r)) else String c r | EmptyString => String c r end
+  else String c r.
+Proof. reflexivity. Qed.
+Lemma id_skip_len : forall s, String.length (id_skip s) <= String.length s.
+Proof. intro s. apply id_skip_go_len. Qed.
+Lemma id_skip_stop : forall X, stops is_ws X = true -> id_skip X = X.
+Proof. intros X H. apply id_skip_go_stop, H. Qed.
+Lemma id_skip_b1 : forall c r, is_b1 c = true -> id_skip (String c r) = id_skip (snd (span is_b1 r)).
+Proof.
+  intros c r H. unfold id_skip. cbn [String.length]. rewrite id_skip_go_S, H, (span_snd_true _ _ _ H).
+  pose proof (span_snd_len is_b1 r). apply id_skip_go_fuel; lia.
+Qed.
+Lemma id_skip_nl : forall r, id_skip (String c_nl r) = id_skip (skip0 r).
+Proof.
+  intro r. unfold id_skip. cbn [String.length]. rewrite id_skip_go_S. change (is_b1 c_nl) with false. change (Ascii.eqb c_nl c_nl) with true. cbv iota.
+  rewrite skip0_nl. pose proof (skip0_len r). apply id_skip_go_fuel; lia.
+Qed.
+Lemma id_skip_crnl : forall r, id_skip (String c_cr (String c_nl r)) = id_skip (skip0 r).
+Proof.
+  intro r. unfold id_skip. cbn [String.length]. rewrite id_skip_go_S. change (is_b1 c_cr) with false. change (Ascii.eqb c_cr c_nl) with false.
+  change (Ascii.eqb c_cr c_cr) with true. change (Ascii.eqb c_nl c_nl) with true. cbv iota.
+  rewrite skip0_crnl. pose proof (skip0_len r). apply id_skip_go_fuel; lia.
+Qed.
+Lemma id_skip_span_b1 : forall X, id_skip (snd (span is_b1 X)) = id_skip X.
+Proof.
+  intros [|c r]; [reflexivity|]. destruct (is_b1 c) eqn:E.
+  - now rewrite (span_snd_true _ _ _ E), (id_skip_b1 _ _ E).
+  - cbn [span]. now rewrite E.
+Qed.
+
+(** *** ignored text in front of a name, EXACTLY: what the scanner of a name state has left of [sep_text s ++ X] when it stops skipping.
+    [nl]: IGNORE_0 is running.  A comment met while it is not running is not skipped (it is lexed as a name). *)
+Fixpoint id_tail (nl : bool) (s : sep) (X : string) : string :=
+  match s with
+  | [] => id_skip (if nl then skip0 X else X)
+  | IgComment b :: r => if nl then id_tail true r X else (sep_text s ++ X)%string
+  | i :: r => id_tail (ign0 i) r X
+  end.
+Lemma sep_cons_comment : forall b r X, (sep_text (IgComment b :: r) ++ X)%string = String c_slash (String c_slash (b ++ nl1 ++ (sep_text r ++ X)))%string.
+Proof. intros b r X. cbn [sep_text ign_text]. rewrite !sapp_assoc. reflexivity. Qed.
+Lemma id_skip_sep_gen : forall s X, sep_ok s = true ->
+  id_skip (sep_text s ++ X)%string = id_tail false s X /\
+  id_skip (snd (span is_b1 (sep_text s ++ X)%string)) = id_tail false s X /\
+  id_skip (skip0 (sep_text s ++ X)%string) = id_tail true s X.
+Proof.
+  intros s X. induction s as [|i r IH]; intro Hs.
+  - cbn [sep_text append id_tail]. split; [reflexivity|]. split; [apply id_skip_span_b1 | reflexivity].
+  - unfold sep_ok in Hs. cbn [forallb] in Hs. apply andb_true_iff in Hs. destruct Hs as [Hi Hr].
+    destruct (IH Hr) as [I1 [I2 I3]]. set (T := (sep_text r ++ X)%string) in *.
+    assert (B1 : forall c, is_b1 c = true -> skip0 (String c T) = String c T ->
+                 id_skip (String c T) = id_tail false r X /\ id_skip (snd (span is_b1 (String c T))) = id_tail false r X /\
+                 id_skip (skip0 (String c T)) = id_tail false r X).
+    { intros c Hc Hk. rewrite Hk, (span_snd_true _ _ _ Hc), (id_skip_b1 _ _ Hc). auto. }
+    destruct i as [| | | | |b].
+    + change (sep_text (IgSpace :: r) ++ X)%string with (String c_sp T). cbn [id_tail ign0]. apply B1; reflexivity.
+    + change (sep_text (IgTab :: r) ++ X)%string with (String c_tab T). cbn [id_tail ign0]. apply B1; reflexivity.
+    + change (sep_text (IgFf :: r) ++ X)%string with (String c_ff T). cbn [id_tail ign0]. apply B1; reflexivity.
+    + change (sep_text (IgNl :: r) ++ X)%string with (String c_nl T). cbn [id_tail ign0].
+      change (snd (span is_b1 (String c_nl T))) with (String c_nl T). rewrite skip0_nl, id_skip_nl. auto.
+    + change (sep_text (IgCrNl :: r) ++ X)%string with (String c_cr (String c_nl T)). cbn [id_tail ign0].
+      change (snd (span is_b1 (String c_cr (String c_nl T)))) with (String c_cr (String c_nl T)). rewrite skip0_crnl, id_skip_crnl. auto.
+    + cbn [ign_ok] in Hi. cbn [id_tail]. rewrite sep_cons_comment. fold T.
+      change (snd (span is_b1 (String c_slash (String c_slash (b ++ nl1 ++ T)%string)))) with (String c_slash (String c_slash (b ++ nl1 ++ T)%string)).
+      rewrite (id_skip_stop (String c_slash (String c_slash (b ++ nl1 ++ T)%string)) eq_refl).
+      split; [reflexivity|]. split; [reflexivity|].
+      change (skip0 (String c_slash (String c_slash (b ++ nl1 ++ T)%string))) with (skip_go false true (b ++ nl1 ++ T)%string).
+      rewrite (skip_comment false b T Hi). exact I3.
+Qed.
+Lemma id_tail_ok : forall s nl X, cm_ok nl s = true -> id_tail nl s X = id_skip (if ends0 nl s then skip0 X else X).
+Proof.
+  induction s as [|i r IH]; intros nl X H; [reflexivity|].
+  destruct i; cbn [cm_ok ign0] in H; cbn [id_tail ends0 ign0]; try (apply IH, H).
+  apply andb_true_iff in H. destruct H as [Hn H]. subst nl. apply IH, H.
+Qed.
+Lemma id_tail_bad : forall s nl X, cm_ok nl s = false ->
+  exists p b r, s = p ++ IgComment b :: r /\ id_tail nl s X = (sep_text (IgComment b :: r) ++ X)%string.
+Proof.
+  induction s as [|i r IH]; intros nl X H; [discriminate H|].
+  assert (Hrec : forall m, cm_ok m r = false -> exists p b r', i :: r = p ++ IgComment b :: r' /\ id_tail m r X = (sep_text (IgComment b :: r') ++ X)%string).
+  { intros m Hm. destruct (IH m X Hm) as [p [b [r' [E1 E2]]]]. exists (i :: p), b, r'. split; [now rewrite E1 | exact E2]. }
+  destruct i; cbn [cm_ok ign0] in H; cbn [id_tail ign0]; try (apply Hrec, H).
+  destruct nl; cbn [andb] in H.
+  - apply Hrec, H.
+  - exists [], body, r. split; reflexivity.
+Qed.
+Lemma skip0_stop : forall X, stops is_ws X = true -> slash2 X = false -> skip0 X = X.
+Proof.
+  intros [|c t] Hw Hs; [reflexivity|]. cbn [stops] in Hw. apply negb_true_iff in Hw. unfold skip0. cbn [skip_go andb orb].
+  destruct (Ascii.eqb c c_nl) eqn:E1; [apply Ascii.eqb_eq in E1; subst c; discriminate Hw|].
+  destruct (Ascii.eqb c c_cr) eqn:E2; [apply Ascii.eqb_eq in E2; subst c; discriminate Hw|].
+  destruct (Ascii.eqb c c_slash) eqn:E3; [|reflexivity]. destruct t as [|d t']; [reflexivity|].
+  cbn [slash2] in Hs. rewrite E3 in Hs. cbn [andb] in Hs. now rewrite Hs.
+Qed.
 Lemma idsep_sep_ok : forall s, idsep_ok s = true -> sep_ok s = true.
-Proof.
-  intros [|i r] Hs; [discriminate Hs|]. destruct i; try discriminate Hs. cbn [idsep_ok] in Hs. unfold sep_ok. cbn [forallb ign_ok andb].
-  rewrite forallb_forall in *. intros x Hx. specialize (Hs x Hx). destruct x; try discriminate Hs; reflexivity.
-Qed.
+Proof. intros s H. unfold idsep_ok in H. apply andb_true_iff in H. tauto. Qed.
 Lemma aftsep_sep_ok : forall s, aftsep_ok s = true -> sep_ok s = true.
-Proof. intros [|i r] Hs; [reflexivity|]. destruct i; try discriminate Hs. exact Hs. Qed.
+Proof. intros s H. unfold aftsep_ok in H. apply andb_true_iff in H. tauto. Qed.
+(* the separator is skipped, the scanner arrives at X *)
+Lemma id_skip_sep : forall s X, idsep_ok s = true -> stops is_ws X = true -> ends0 false s && slash2 X = false ->
+  id_skip (sep_text s ++ X)%string = X.
+Proof.
+  intros s X Hs HX Hsl. unfold idsep_ok in Hs. apply andb_true_iff in Hs. destruct Hs as [Hok Hcm].
+  rewrite (proj1 (id_skip_sep_gen s X Hok)), (id_tail_ok _ _ _ Hcm).
+  destruct (ends0 false s); [|apply id_skip_stop, HX]. cbn [andb] in Hsl. rewrite (skip0_stop _ HX Hsl). apply id_skip_stop, HX.
+Qed.
+(* CONVERSE 1: a comment that does not directly follow a line break or comment is NOT skipped: the scanner stops in front of it *)
+Lemma id_skip_sep_bad : forall s X, sep_ok s = true -> cm_ok false s = false ->
+  exists p b r, s = p ++ IgComment b :: r /\ id_skip (sep_text s ++ X)%string = (sep_text (IgComment b :: r) ++ X)%string.
+Proof.
+  intros s X Hok Hcm. destruct (id_tail_bad s false X Hcm) as [p [b [r [E1 E2]]]]. exists p, b, r. split; [exact E1|].
+  now rewrite (proj1 (id_skip_sep_gen s X Hok)).
+Qed.
+Lemma sep_comment_len : forall b r X, String.length X < String.length (sep_text (IgComment b :: r) ++ X)%string.
+Proof. intros b r X. rewrite sep_cons_comment. cbn [String.length]. rewrite !slen_app. lia. Qed.
+Theorem id_skip_sep_iff : forall s X, sep_ok s = true -> stops is_ws X = true -> ends0 false s && slash2 X = false ->
+  (id_skip (sep_text s ++ X)%string = X <-> idsep_ok s = true).
+Proof.
+  intros s X Hok HX Hsl. split.
+  - intro E. unfold idsep_ok. rewrite Hok. cbn [andb]. destruct (cm_ok false s) eqn:Hcm; [reflexivity|]. exfalso.
+    destruct (id_skip_sep_bad s X Hok Hcm) as [p [b [r [_ E2]]]]. rewrite E in E2.
+    pose proof (sep_comment_len b r X) as L. rewrite <- E2 in L. lia.
+  - intro H. apply id_skip_sep; assumption.
+Qed.
+(* CONVERSE 2: where the separator ends with a line break or comment, a following `//` is one more comment: it is skipped too *)
+Lemma id_skip_sep_slash : forall s X, idsep_ok s = true -> ends0 false s = true ->
+  id_skip (sep_text s ++ X)%string = id_skip (skip0 X).
+Proof.
+  intros s X Hs He. unfold idsep_ok in Hs. apply andb_true_iff in Hs. destruct Hs as [Hok Hcm].
+  now rewrite (proj1 (id_skip_sep_gen s X Hok)), (id_tail_ok _ _ _ Hcm), He.
+Qed.
+Lemma skip0_slash_len : forall X, slash2 X = true -> String.length (skip0 X) + 2 <= String.length X.
+Proof.
+  intros [|c [|d t]] H; try discriminate H. cbn [slash2] in H. apply andb_true_iff in H. destruct H as [H1 H2].
+  apply Ascii.eqb_eq in H1, H2. subst c d.
+  change (skip0 (String c_slash (String c_slash t))) with (skip_go false true t). pose proof (skip_go_len false _ t true (le_n _)).
+  cbn [String.length]. lia.
+Qed.
+
+Lemma idsep_name_end : forall s X, idsep_ok s = true -> s <> [] -> name_end (sep_text s ++ X)%string = true.
+Proof.
+  intros [|i r] X Hs Hne; [congruence|]. unfold idsep_ok in Hs. apply andb_true_iff in Hs. destruct Hs as [_ Hs].
+  destruct i; try reflexivity. discriminate Hs.
+Qed.
+Lemma aftsep_name_end0 : forall s X, aftsep_ok s = true -> name_end X = true -> name_end (sep_text s ++ X)%string = true.
+Proof.
+  intros [|i r] X Hs HX; [exact HX|]. unfold aftsep_ok in Hs. destruct i; try reflexivity. rewrite andb_false_r in Hs. discriminate Hs.
+Qed.
+(* the narrow conditions of the first version (a blank, then blanks / tabs / form feeds only; after a name nothing or ignored text that
+   begins with a blank; a blank or parenthesis after a name) are special cases *)
+Definition idsep_ok_v1 (s : sep) : bool := match s with IgSpace :: r => forallb b1_only r | _ => false end.
+Definition aftsep_ok_v1 (s : sep) : bool := match s with [] => true | IgSpace :: r => sep_ok r | _ => false end.
+Definition name_end_v1 (s : string) : bool := match s with String c _ => is_paren c || Ascii.eqb c c_sp | EmptyString => true end.
+Lemma b1_only_wide : forall r nl, forallb b1_only r = true -> sep_ok r = true /\ cm_ok nl r = true /\ ends0 false r = false.
+Proof.
+  induction r as [|i r IH]; intros nl H; [repeat split|]. cbn [forallb] in H. apply andb_true_iff in H. destruct H as [Hi Hr].
+  destruct (IH false Hr) as [H1 [H2 H3]].
+  destruct i; try discriminate Hi; unfold sep_ok; cbn [forallb ign_ok andb cm_ok ends0 ign0]; repeat split; assumption.
+Qed.
+Lemma idsep_ok_v1_wide : forall s, idsep_ok_v1 s = true -> idsep_ok s = true /\ ends0 false s = false /\ s <> [].
+Proof.
+  intros [|i r] H; [discriminate H|]. destruct i; try discriminate H. cbn [idsep_ok_v1] in H.
+  destruct (b1_only_wide r false H) as [H1 [H2 H3]]. unfold idsep_ok, sep_ok in *. cbn [forallb ign_ok andb cm_ok ends0 ign0].
+  rewrite H1, H2. repeat split; [exact H3 | discriminate].
+Qed.
+Lemma bef_ok_v1_wide : forall s n, idsep_ok_v1 s = true -> bef_ok s n = true.
+Proof. intros s n H. destruct (idsep_ok_v1_wide s H) as [H1 [H2 _]]. unfold bef_ok. now rewrite H1, H2. Qed.
+Lemma touch_ok_v1_wide : forall o a s b, idsep_ok_v1 s = true -> touch_ok o a s b = true.
+Proof. intros o a [|i r] b H; [discriminate H | reflexivity]. Qed.
+Lemma aftsep_ok_v1_wide : forall s, aftsep_ok_v1 s = true -> aftsep_ok s = true.
+Proof.
+  intros [|i r] H; [reflexivity|]. destruct i; try discriminate H. cbn [aftsep_ok_v1] in H. unfold aftsep_ok, sep_ok in *. cbn [forallb ign_ok andb]. now rewrite H.
+Qed.
+Lemma aft_ok_v1_wide : forall o n s, aftsep_ok_v1 s = true -> aft_ok o n s = true.
+Proof. intros o n s H. unfold aft_ok. rewrite (aftsep_ok_v1_wide s H), (aftsep_sep_ok _ (aftsep_ok_v1_wide s H)). apply orb_true_r. Qed.
+Lemma name_end_v1_wide : forall s, name_end_v1 s = true -> name_end s = true.
+Proof.
+  intros [|c t] H; [reflexivity|]. cbn [name_end_v1 name_end] in *. apply orb_true_iff in H. destruct H as [H|H]; [now rewrite H|].
+  apply Ascii.eqb_eq in H. subst c. reflexivity.
+Qed.
+
+Lemma sapp_cancel : forall a x : string, (a ++ x)%string = a -> x = EmptyString.
+Proof. induction a as [|c a IH]; intros x H; [exact H|]. cbn [append] in H. inversion H. auto. Qed.
+Lemma span_app_gen : forall p a rest, sall p a = true -> span p (a ++ rest)%string = ((a ++ fst (span p rest))%string, snd (span p rest)).
+Proof.
+  induction a as [|c a IH]; intros rest Ha; [cbn [append]; now destruct (span p rest)|].
+  unfold sall in Ha. cbn [str_forall] in Ha. apply andb_true_iff in Ha. destruct Ha as [Hc Ha].
+  cbn [append span]. rewrite Hc, (IH _ Ha). reflexivity.
+Qed.
+Lemma span_fst_nil : forall p s, fst (span p s) = EmptyString -> stops p s = true.
+Proof. intros p [|c r] H; [reflexivity|]. cbn [span stops] in *. destruct (p c); [|reflexivity]. destruct (span p r). discriminate H. Qed.
 
 Section Names.
   Variables (o cl : ascii) (inner plain : ascii -> bool).
   Hypothesis inner_cl : forall c, inner c = false -> c = cl.
   Hypothesis o_not_ws : is_ws o = false.
-  Hypothesis plain_end : forall c, is_paren c || Ascii.eqb c c_sp = true -> plain c = false.
-  Hypothesis plain_ws : forall c, plain c = true -> is_ws c = false.
+  Hypothesis o_not_slash : Ascii.eqb o c_slash = false.
+  Hypothesis o_not_plain : plain o = false.
+  Hypothesis plain_end : forall c, is_paren c || is_ws c = true -> plain c = false.
+  Hypothesis plain_slash : plain c_slash = true.
+  Lemma plain_ws : forall c, plain c = true -> is_ws c = false.
+  Proof. intros c H. destruct (is_ws c) eqn:E; [|reflexivity]. rewrite plain_end in H; [discriminate H | now rewrite E, orb_true_r]. Qed.
+  Lemma name_end_stops : forall X, name_end X = true -> stops plain X = true.
+  Proof. intros [|c t] H; [reflexivity|]. cbn [name_end stops] in *. now rewrite (plain_end _ H). Qed.
   Definition wf_tok (s : string) : bool :=
     match s with
     | String c r => if Ascii.eqb c o then wf_wrapped inner r else sall plain s && negb (is_b1 c)
     | EmptyString => false
     end.
-  Lemma scan_name_tok : forall s n rest, idsep_ok s = true -> wf_tok n = true -> name_end rest = true ->
+  (* the scanner arrives at the name *)
+  Lemma id_skip_tok : forall s n rest, bef_ok s n = true -> wf_tok n = true -> opens o n || stops plain rest = true ->
+    id_skip (sep_text s ++ n ++ rest)%string = (n ++ rest)%string.
+  Proof.
+    intros s [|c r] rest Hs Hn Hr; [discriminate Hn|]. unfold bef_ok in Hs. apply andb_true_iff in Hs. destruct Hs as [Hs Hsl].
+    apply negb_true_iff in Hsl. cbn [wf_tok opens] in Hn, Hr. cbn [append]. destruct (Ascii.eqb c o) eqn:Eo.
+    - apply Ascii.eqb_eq in Eo. subst c. apply id_skip_sep; [exact Hs | cbn [stops]; now rewrite o_not_ws|].
+      cbn [slash2]. destruct (r ++ rest)%string; [apply andb_false_r | rewrite o_not_slash; apply andb_false_r].
+    - cbn [orb] in Hr. apply andb_true_iff in Hn. destruct Hn as [Hp _].
+      assert (Hc : plain c = true) by (unfold sall in Hp; cbn [str_forall] in Hp; apply andb_true_iff in Hp; tauto).
+      apply id_skip_sep; [exact Hs | cbn [stops]; now rewrite (plain_ws _ Hc)|].
+      destruct (ends0 false s); [|reflexivity]. cbn [andb] in *.
+      destruct r as [|d r']; [|exact Hsl]. cbn [append slash2]. destruct rest as [|d t]; [reflexivity|].
+      cbn [stops] in Hr. apply negb_true_iff in Hr.
+      destruct (Ascii.eqb d c_slash) eqn:Ed; [|apply andb_false_r]. apply Ascii.eqb_eq in Ed. subst d. rewrite plain_slash in Hr. discriminate Hr.
+  Qed.
+  Lemma scan_name_tok : forall s n rest, bef_ok s n = true -> wf_tok n = true -> opens o n || stops plain rest = true ->
     scan_name o cl inner plain (sep_text s ++ n ++ rest)%string = Some (n, rest).
   Proof.
-    intros s [|c r] rest Hs Hn Hr; [discriminate Hn|]. cbn [wf_tok] in Hn.
-    destruct (Ascii.eqb c o) eqn:Eo.
+    intros s n rest Hs Hn Hr. unfold scan_name. rewrite (id_skip_tok s n rest Hs Hn Hr).
+    destruct n as [|c r]; [discriminate Hn|]. cbn [wf_tok opens] in Hn, Hr. cbn [append]. destruct (Ascii.eqb c o) eqn:Eo.
     - apply Ascii.eqb_eq in Eo. subst c. unfold wf_wrapped in Hn.
       destruct (span inner r) as [a b] eqn:E. destruct a as [|x a']; [discriminate Hn|].
       destruct b as [|c2 b']; [discriminate Hn|]. destruct b'; [|discriminate Hn].
       destruct (span_eq _ _ _ _ E) as [Er [_ Hst]]. cbn [stops] in Hst. apply negb_true_iff in Hst. apply inner_cl in Hst. subst c2.
-      unfold scan_name. rewrite (id_skip_sep _ _ Hs) by (cbn [append stops]; now rewrite o_not_ws).
-      cbn [append]. rewrite Ascii.eqb_refl. rewrite (span_app_stop _ _ _ _ _ rest E). cbn [append]. now rewrite Er.
-    - apply andb_true_iff in Hn. destruct Hn as [Hp Hb]. apply negb_true_iff in Hb.
+      rewrite (span_app_stop _ _ _ _ _ rest E). cbn [append]. now rewrite Er.
+    - cbn [orb] in Hr. apply andb_true_iff in Hn. destruct Hn as [Hp Hb].
       assert (Hc : plain c = true) by (unfold sall in Hp; cbn [str_forall] in Hp; apply andb_true_iff in Hp; tauto).
-      unfold scan_name. rewrite (id_skip_sep _ _ Hs) by (cbn [append stops]; now rewrite (plain_ws _ Hc)).
-      cbn [append]. rewrite Eo.
       rewrite Hc. change (String c (r ++ rest)%string) with (String c r ++ rest)%string.
-      rewrite (span_app _ _ _ Hp); [reflexivity|].
-      destruct rest as [|d t]; [reflexivity|]. cbn [name_end] in Hr. cbn [stops]. now rewrite (plain_end _ Hr).
+      rewrite (span_app _ _ _ Hp Hr). reflexivity.
+  Qed.
+  (* EXACT for the plain form: the name runs on over every following plain character; it ends where written iff a non-plain character follows *)
+  Lemma scan_name_plain : forall s n rest, idsep_ok s = true -> wf_tok n = true -> opens o n = false ->
+    ends0 false s && slash2 (n ++ rest) = false ->
+    scan_name o cl inner plain (sep_text s ++ n ++ rest)%string = Some ((n ++ fst (span plain rest))%string, snd (span plain rest)).
+  Proof.
+    intros s [|c r] rest Hs Hn Ho Hsl; [discriminate Hn|]. cbn [wf_tok opens] in Hn, Ho. rewrite Ho in Hn.
+    apply andb_true_iff in Hn. destruct Hn as [Hp _].
+    assert (Hc : plain c = true) by (unfold sall in Hp; cbn [str_forall] in Hp; apply andb_true_iff in Hp; tauto).
+    assert (Hst : stops is_ws (String c r ++ rest)%string = true) by (cbn [append stops]; now rewrite (plain_ws _ Hc)).
+    unfold scan_name. rewrite (id_skip_sep s _ Hs Hst Hsl).
+    cbn [append]. rewrite Ho, Hc. change (String c (r ++ rest)%string) with (String c r ++ rest)%string.
+    now rewrite (span_app_gen _ _ rest Hp).
+  Qed.
+  Lemma scan_name_plain_iff : forall s n rest, idsep_ok s = true -> wf_tok n = true -> opens o n = false ->
+    ends0 false s && slash2 (n ++ rest) = false ->
+    (scan_name o cl inner plain (sep_text s ++ n ++ rest)%string = Some (n, rest) <-> stops plain rest = true).
+  Proof.
+    intros s n rest Hs Hn Ho Hsl. rewrite (scan_name_plain s n rest Hs Hn Ho Hsl). split.
+    - intro E. injection E as E1 E2. apply span_fst_nil. exact (sapp_cancel _ _ E1).
+    - intro H. destruct rest as [|d t]; [cbn [span fst snd]; now rewrite sapp_nil_r|].
+      cbn [stops] in H. apply negb_true_iff in H. cbn [span]. rewrite H. cbn [fst snd]. now rewrite sapp_nil_r.
+  Qed.
+  (* CONVERSE 1 at the name: the misplaced comment is lexed as (the beginning of) a name *)
+  Lemma scan_name_comment : forall s X, sep_ok s = true -> cm_ok false s = false ->
+    exists n r, scan_name o cl inner plain (sep_text s ++ X)%string = Some (n, r) /\ slash2 n = true.
+  Proof.
+    intros s X Hok Hcm. destruct (id_skip_sep_bad s X Hok Hcm) as [p [b [r [_ E]]]]. unfold scan_name. rewrite E, sep_cons_comment.
+    assert (Eo : Ascii.eqb c_slash o = false) by (rewrite Ascii.eqb_sym; exact o_not_slash). rewrite Eo, plain_slash.
+    cbn [span]. rewrite plain_slash. destruct (span plain (b ++ nl1 ++ sep_text r ++ X)%string) as [a t]. eexists. eexists. split; reflexivity.
+  Qed.
+  (* CONVERSE 2 at the name: after a separator that ends with a line break or comment, a name written with `//` in front is NOT read *)
+  Lemma scan_name_len : forall Y n r, scan_name o cl inner plain Y = Some (n, r) -> String.length n + String.length r <= String.length Y.
+  Proof.
+    intros Y n r H. unfold scan_name in H. pose proof (id_skip_len Y) as L. destruct (id_skip Y) as [|c t]; [discriminate H|].
+    destruct (Ascii.eqb c o).
+    - destruct (span inner t) as [[|x b] [|c2 r2]] eqn:E; try discriminate H. inversion H; subst.
+      destruct (span_eq _ _ _ _ E) as [Et _]. subst t. cbn [String.length append] in *. rewrite !slen_app in *. cbn [String.length] in *. lia.
+    - destruct (plain c); [|discriminate H]. destruct (span plain (String c t)) as [a b] eqn:E. inversion H; subst.
+      destruct (span_eq _ _ _ _ E) as [Et _]. rewrite Et, slen_app in L. lia.
+  Qed.
+  Lemma scan_name_slash_lost : forall s n rest, idsep_ok s = true -> ends0 false s = true -> slash2 (n ++ rest) = true ->
+    scan_name o cl inner plain (sep_text s ++ n ++ rest)%string <> Some (n, rest).
+  Proof.
+    intros s n rest Hs He Hsl E. unfold scan_name in E. rewrite (id_skip_sep_slash s _ Hs He) in E.
+    pose proof (skip0_slash_len _ Hsl) as L1. pose proof (id_skip_len (skip0 (n ++ rest))) as L2. rewrite slen_app in L1.
+    destruct (id_skip (skip0 (n ++ rest))) as [|c t]; [discriminate E|].
+    destruct (Ascii.eqb c o).
+    - destruct (span inner t) as [[|x b] [|c2 r2]] eqn:E2; try discriminate E. inversion E; subst.
+      destruct (span_eq _ _ _ _ E2) as [Et _]. subst t. cbn [String.length append] in *. rewrite !slen_app in *. cbn [String.length] in *. lia.
+    - destruct (plain c); [|discriminate E]. destruct (span plain (String c t)) as [a b] eqn:E2. inversion E; subst.
+      destruct (span_eq _ _ _ _ E2) as [Et _]. rewrite Et, slen_app in L2. lia.
+  Qed.
+  (* what follows a name inside the concrete syntax *)
+  Lemma touch_end : forall a s b R, idsep_ok s = true -> touch_ok o a s b = true -> opens o a || stops plain (sep_text s ++ b ++ R)%string = true.
+  Proof.
+    intros a [|i r] b R Hs Ht.
+    - cbn [touch_ok] in Ht. apply orb_true_iff in Ht. destruct Ht as [Ht|Ht]; [now rewrite Ht|]. apply orb_true_iff. right.
+      destruct b as [|c t]; [discriminate Ht|]. cbn [opens] in Ht. apply Ascii.eqb_eq in Ht. subst c. cbn [sep_text append stops]. now rewrite o_not_plain.
+    - apply orb_true_iff. right. apply name_end_stops, idsep_name_end; [exact Hs | discriminate].
+  Qed.
+  Lemma aft_end : forall n s X, aft_ok o n s = true -> name_end X = true -> opens o n || stops plain (sep_text s ++ X)%string = true.
+  Proof.
+    intros n s X H HX. unfold aft_ok in H. apply andb_true_iff in H. destruct H as [_ H]. apply orb_true_iff in H. destruct H as [H|H]; [now rewrite H|].
+    apply orb_true_iff. right. apply name_end_stops, aftsep_name_end0; assumption.
   Qed.
 End Names.
 
@@ -176,23 +488,55 @@ Lemma not_quote_cl : forall c, not_quote c = false -> c = c_quote.
 Proof. intros c H. unfold not_quote in H. apply negb_false_iff, Ascii.eqb_eq in H. exact H. Qed.
 Lemma not_rpar_cl : forall c, not_rpar c = false -> c = c_rpar.
 Proof. intros c H. unfold not_rpar in H. apply negb_false_iff, Ascii.eqb_eq in H. exact H. Qed.
-Lemma ide_char_end : forall c, is_paren c || Ascii.eqb c c_sp = true -> ide_char c = false.
-Proof.
-  intros c H. unfold ide_char. apply orb_true_iff in H. destruct H as [H|H]; [now rewrite H|].
-  apply Ascii.eqb_eq in H. subst c. reflexivity.
-Qed.
-Lemma id_char_end : forall c, is_paren c || Ascii.eqb c c_sp = true -> id_char c = false.
+Lemma ide_char_end : forall c, is_paren c || is_ws c = true -> ide_char c = false.
+Proof. intros c H. unfold ide_char. now rewrite H. Qed.
+Lemma id_char_end : forall c, is_paren c || is_ws c = true -> id_char c = false.
 Proof. intros c H. unfold id_char. now rewrite (ide_char_end _ H). Qed.
 Lemma ide_char_ws : forall c, ide_char c = true -> is_ws c = false.
 Proof. intros c H. unfold ide_char in H. apply negb_true_iff, orb_false_iff in H. tauto. Qed.
 Lemma id_char_ws : forall c, id_char c = true -> is_ws c = false.
 Proof. intros c H. unfold id_char in H. apply andb_true_iff in H. apply ide_char_ws. tauto. Qed.
-Lemma scan_id_tok : forall s n rest, idsep_ok s = true -> wf_id n = true -> name_end rest = true ->
+(* for ID_OR_EDGE "a parenthesis or white space follows" is exactly "the plain name ends here" *)
+Lemma name_end_ide : forall X, name_end X = stops ide_char X.
+Proof. intros [|c t]; [reflexivity|]. cbn [name_end stops]. unfold ide_char. now rewrite negb_involutive. Qed.
+Lemma scan_id_tok : forall s n rest, bef_ok s n = true -> wf_id n = true -> opens c_quote n || stops id_char rest = true ->
   scan_id (sep_text s ++ n ++ rest)%string = Some (n, rest).
-Proof. intros s n rest. exact (scan_name_tok c_quote c_quote not_quote id_char not_quote_cl eq_refl id_char_end id_char_ws s n rest). Qed.
-Lemma scan_ide_tok : forall s n rest, idsep_ok s = true -> wf_ide n = true -> name_end rest = true ->
+Proof. intros s n rest. exact (scan_name_tok c_quote c_quote not_quote id_char not_quote_cl eq_refl eq_refl id_char_end eq_refl s n rest). Qed.
+Lemma scan_ide_tok : forall s n rest, bef_ok s n = true -> wf_ide n = true -> opens c_lpar n || stops ide_char rest = true ->
   scan_ide (sep_text s ++ n ++ rest)%string = Some (n, rest).
-Proof. intros s n rest. exact (scan_name_tok c_lpar c_rpar not_rpar ide_char not_rpar_cl eq_refl ide_char_end ide_char_ws s n rest). Qed.
+Proof. intros s n rest. exact (scan_name_tok c_lpar c_rpar not_rpar ide_char not_rpar_cl eq_refl eq_refl ide_char_end eq_refl s n rest). Qed.
+
+(** *** the conditions are EXACT (scanner level, ID and ID_OR_EDGE alike) *)
+(* a comment that is first in the separator or directly follows a blank / tab / form feed is lexed as a name that begins with `//` *)
+Theorem scan_id_comment : forall s X, sep_ok s = true -> cm_ok false s = false ->
+  exists n r, scan_id (sep_text s ++ X)%string = Some (n, r) /\ slash2 n = true.
+Proof. intros s X. exact (scan_name_comment c_quote c_quote not_quote id_char eq_refl eq_refl s X). Qed.
+Theorem scan_ide_comment : forall s X, sep_ok s = true -> cm_ok false s = false ->
+  exists n r, scan_ide (sep_text s ++ X)%string = Some (n, r) /\ slash2 n = true.
+Proof. intros s X. exact (scan_name_comment c_lpar c_rpar not_rpar ide_char eq_refl eq_refl s X). Qed.
+(* a plain name ends exactly where a character outside its class follows: ( ) or white space (for ID also the double quote) *)
+Theorem scan_id_plain_iff : forall s n rest, idsep_ok s = true -> wf_id n = true -> opens c_quote n = false ->
+  ends0 false s && slash2 (n ++ rest) = false ->
+  (scan_id (sep_text s ++ n ++ rest)%string = Some (n, rest) <-> stops id_char rest = true).
+Proof. intros s n rest. exact (scan_name_plain_iff c_quote c_quote not_quote id_char id_char_end s n rest). Qed.
+Theorem scan_ide_plain_iff : forall s n rest, idsep_ok s = true -> wf_ide n = true -> opens c_lpar n = false ->
+  ends0 false s && slash2 (n ++ rest) = false ->
+  (scan_ide (sep_text s ++ n ++ rest)%string = Some (n, rest) <-> name_end rest = true).
+Proof. intros s n rest H1 H2 H3 H4. rewrite name_end_ide. exact (scan_name_plain_iff c_lpar c_rpar not_rpar ide_char ide_char_end s n rest H1 H2 H3 H4). Qed.
+(* in particular a comment directly after a plain name belongs to the name *)
+Lemma comment_after_name : forall s n b r rest, idsep_ok s = true -> wf_id n = true -> opens c_quote n = false ->
+  ends0 false s && slash2 (n ++ sep_text (IgComment b :: r) ++ rest) = false ->
+  scan_id (sep_text s ++ n ++ sep_text (IgComment b :: r) ++ rest)%string <> Some (n, (sep_text (IgComment b :: r) ++ rest)%string).
+Proof.
+  intros s n b r rest H1 H2 H3 H4 E. apply (scan_id_plain_iff s n _ H1 H2 H3 H4) in E. rewrite sep_cons_comment in E. discriminate E.
+Qed.
+(* after a separator that ends with a line break or a comment, a name that begins with `//` is taken for one more comment *)
+Theorem scan_id_slash_lost : forall s n rest, idsep_ok s = true -> ends0 false s = true -> slash2 (n ++ rest) = true ->
+  scan_id (sep_text s ++ n ++ rest)%string <> Some (n, rest).
+Proof. intros s n rest. exact (scan_name_slash_lost c_quote c_quote not_quote id_char s n rest). Qed.
+Theorem scan_ide_slash_lost : forall s n rest, idsep_ok s = true -> ends0 false s = true -> slash2 (n ++ rest) = true ->
+  scan_ide (sep_text s ++ n ++ rest)%string <> Some (n, rest).
+Proof. intros s n rest. exact (scan_name_slash_lost c_lpar c_rpar not_rpar ide_char s n rest). Qed.
 
 (** ** the loops *)
 Lemma items_len {Y} (f : Y -> string) : (forall y, 1 <= String.length (f y)) ->
@@ -290,16 +634,17 @@ Qed.
 (** ** entries *)
 Lemma ctriple_len : forall t, 1 <= String.length (ctriple_text t).
 Proof. intro t. destruct (triple_lpar t) as [r E]. rewrite E. cbn [String.length]. lia. Qed.
-Lemma aftsep_name_end {X} (f : X -> string) : (forall x, exists r, f x = String c_lpar r) ->
-  forall (l : list (sep * X)) sf rest, aftsep_ok (first_sep l sf) = true ->
-  name_end (items_text f l ++ sep_text sf ++ ")" ++ rest)%string = true.
+(* after the second name: the first separator of what follows, then a parenthesis *)
+Lemma first_sep_text {X} (f : X -> string) : (forall x, exists r, f x = String c_lpar r) ->
+  forall (l : list (sep * X)) sf rest, exists c t,
+    (items_text f l ++ sep_text sf ++ ")" ++ rest)%string = (sep_text (first_sep l sf) ++ String c t)%string /\ is_paren c = true.
 Proof.
-  intros Hf [|[s x] l] sf rest H; cbn [first_sep] in H.
-  - cbn [items_text append]. destruct sf as [|i r]; [reflexivity|]. destruct i; try discriminate H. reflexivity.
-  - cbn [items_text]. destruct s as [|i r].
-    + destruct (Hf x) as [t E]. cbn [sep_text append]. rewrite E. reflexivity.
-    + destruct i; try discriminate H. reflexivity.
+  intros Hf [|[s x] l] sf rest; cbn [first_sep items_text].
+  - exists c_rpar, rest. split; reflexivity.
+  - destruct (Hf x) as [t E]. exists c_lpar. eexists. rewrite E, !sapp_assoc. cbn [append]. split; reflexivity.
 Qed.
+Lemma paren_name_end : forall c t, is_paren c = true -> name_end (String c t) = true.
+Proof. intros c t H. cbn [name_end]. now rewrite H. Qed.
 Lemma fuel_items {X} (f : X -> string) : (forall x, 1 <= String.length (f x)) ->
   forall (l : list (sep * X)) R, List.length l < fuel_of (items_text f l ++ R)%string.
 Proof. intros Hf l R. unfold fuel_of. rewrite slen_app. pose proof (items_len f Hf l). lia. Qed.
@@ -310,16 +655,23 @@ Lemma entry_args : forall io s1 a s2 b ts sf rest,
   = Some ([centry_abs (CE io s1 a s2 b ts sf)], rest).
 Proof.
   intros io s1 a s2 b ts sf rest H. cbn [centry_ok] in H.
-  repeat (apply andb_true_iff in H; destruct H as [H ?]).
-  rename H into Hs1, H4 into Hs2, H3 into Hn, H2 into Hts, H1 into Hsf, H0 into Haft.
+  apply andb_true_iff in H. destruct H as [H Haft]. apply andb_true_iff in H. destruct H as [H Hsf].
+  apply andb_true_iff in H. destruct H as [H Hts]. apply andb_true_iff in H. destruct H as [H Hn].
+  apply andb_true_iff in H. destruct H as [H Hto]. apply andb_true_iff in H. destruct H as [Hs1 Hs2].
   set (R2 := (items_text ctriple_text ts ++ sep_text sf ++ ")" ++ rest)%string).
-  assert (HR2 : name_end R2 = true) by (apply (aftsep_name_end ctriple_text triple_lpar); exact Haft).
-  assert (HR1 : name_end (sep_text s2 ++ b ++ R2)%string = true) by (apply idsep_name_end; exact Hs2).
+  assert (Hi2 : idsep_ok s2 = true) by (unfold bef_ok in Hs2; apply andb_true_iff in Hs2; tauto).
+  destruct (first_sep_text ctriple_text triple_lpar ts sf rest) as [pc [pt [ER2 Hpc]]]. fold R2 in ER2.
   assert (Htr : parse_triples (fuel_of R2) R2 = Some (map (fun p => ctriple_abs (snd p)) ts, rest)).
   { unfold R2. apply triples_complete; [exact Hts | exact Hsf | apply (fuel_items ctriple_text ctriple_len)]. }
-  unfold parse_entry. destruct io; apply andb_true_iff in Hn; destruct Hn as [Ha Hb].
-  - rewrite (scan_ide_tok _ _ _ Hs1 Ha HR1), (scan_ide_tok _ _ _ Hs2 Hb HR2), Htr. reflexivity.
-  - rewrite (scan_id_tok _ _ _ Hs1 Ha HR1), (scan_id_tok _ _ _ Hs2 Hb HR2), Htr. reflexivity.
+  unfold parse_entry. destruct io; cbn [open_of] in *; apply andb_true_iff in Hn; destruct Hn as [Ha Hb].
+  - rewrite (scan_ide_tok _ _ _ Hs1 Ha (touch_end c_lpar ide_char eq_refl ide_char_end a s2 b R2 Hi2 Hto)).
+    assert (HR2 : opens c_lpar b || stops ide_char R2 = true)
+      by (rewrite ER2; exact (aft_end c_lpar ide_char ide_char_end b _ _ Haft (paren_name_end _ _ Hpc))).
+    rewrite (scan_ide_tok _ _ _ Hs2 Hb HR2), Htr. reflexivity.
+  - rewrite (scan_id_tok _ _ _ Hs1 Ha (touch_end c_quote id_char eq_refl id_char_end a s2 b R2 Hi2 Hto)).
+    assert (HR2 : opens c_quote b || stops id_char R2 = true)
+      by (rewrite ER2; exact (aft_end c_quote id_char id_char_end b _ _ Haft (paren_name_end _ _ Hpc))).
+    rewrite (scan_id_tok _ _ _ Hs2 Hb HR2), Htr. reflexivity.
 Qed.
 Lemma entry_item : forall e rest, centry_ok e = true ->
   parse_entry_item (centry_text e ++ rest)%string = Some ([centry_abs e], rest).
@@ -447,13 +799,12 @@ Qed.
 (** ** the items of a CELL *)
 Lemma expect_rpar : forall s rest, sep_ok s = true -> expect ")" (sep_text s ++ ")" ++ rest)%string = Some rest.
 Proof. intros s rest Hs. exact (expect_lit s c_rpar EmptyString rest Hs eq_refl). Qed.
-Lemma scan_id_none : forall s rest, match s with [] => true | _ => idsep_ok s end = true ->
-  scan_id (sep_text s ++ ")" ++ rest)%string = None.
+Lemma scan_id_none : forall s rest, idsep_ok s = true -> scan_id (sep_text s ++ ")" ++ rest)%string = None.
 Proof.
-  intros [|i s] rest H; [reflexivity|]. unfold scan_id, scan_name. rewrite (id_skip_sep _ _ H) by reflexivity. reflexivity.
+  intros s rest H. unfold scan_id, scan_name.
+  assert (Hsl : ends0 false s && slash2 (")" ++ rest)%string = false) by (destruct rest; apply andb_false_r).
+  rewrite (id_skip_sep s (")" ++ rest)%string H eq_refl Hsl). reflexivity.
 Qed.
-Lemma aftsep_end : forall s rest, aftsep_ok s = true -> name_end (sep_text s ++ ")" ++ rest)%string = true.
-Proof. intros [|i r] rest H; [reflexivity|]. destruct i; try discriminate H. reflexivity. Qed.
 
 Lemma cell_item : forall c rest, ccitem_ok c = true ->
   parse_cell_item (ccitem_text c ++ rest)%string = Some (ccitem_abs c, rest).
@@ -464,12 +815,13 @@ Proof.
   - change (drop_prefix "(TIMINGCHECK" ("(INSTANCE" ++ ?x)%string) with (@None string).
     change (drop_prefix "(CELLTYPE" ("(INSTANCE" ++ ?x)%string) with (@None string).
     rewrite drop_prefix_app. unfold parse_instance. rewrite (scan_id_none s rest H).
-    rewrite expect_rpar; [reflexivity|]. destruct s as [|i s]; [reflexivity | apply idsep_sep_ok, H].
+    rewrite expect_rpar; [reflexivity | apply idsep_sep_ok, H].
   - change (drop_prefix "(TIMINGCHECK" ("(INSTANCE" ++ ?x)%string) with (@None string).
     change (drop_prefix "(CELLTYPE" ("(INSTANCE" ++ ?x)%string) with (@None string).
     rewrite drop_prefix_app. unfold parse_instance.
     apply andb_true_iff in H. destruct H as [H Hs2]. apply andb_true_iff in H. destruct H as [Hs1 Hn].
-    rewrite (scan_id_tok _ _ _ Hs1 Hn (aftsep_end _ _ Hs2)), (expect_rpar _ _ (aftsep_sep_ok _ Hs2)). reflexivity.
+    assert (Hok2 : sep_ok s2 = true) by (unfold aft_ok in Hs2; apply andb_true_iff in Hs2; tauto).
+    rewrite (scan_id_tok _ _ _ Hs1 Hn (aft_end c_quote id_char id_char_end n s2 (")" ++ rest)%string Hs2 (paren_name_end c_rpar rest eq_refl))), (expect_rpar _ _ Hok2). reflexivity.
   - rewrite drop_prefix_app. apply andb_true_iff in H. destruct H as [Hs Hp].
     rewrite (ignores_complete _ _ _ Hs Hp). reflexivity.
   - change (drop_prefix "(TIMINGCHECK" ("(DELAY" ++ ?x)%string) with (@None string).
@@ -480,6 +832,16 @@ Proof.
     assert (E1 : forall R, expect "(ABSOLUTE" (sep_text s1 ++ "(ABSOLUTE" ++ R)%string = Some R)
       by (intro R; exact (expect_lit s1 c_lpar "ABSOLUTE" R H eq_refl)).
     rewrite E1, (entries_complete es sf _ _ H2 H1 (fuel_items centry_text centry_len es _)), (expect_rpar _ _ H0). reflexivity.
+Qed.
+(* `(INSTANCE` s `)` is an instance-less INSTANCE exactly for the separators of [idsep_ok]; with a misplaced comment the comment becomes the name *)
+Theorem instance0_iff : forall s rest, sep_ok s = true ->
+  (parse_instance (sep_text s ++ ")" ++ rest)%string = Some ([], rest) <-> idsep_ok s = true).
+Proof.
+  intros s rest Hok. split.
+  - intro E. unfold idsep_ok. rewrite Hok. cbn [andb]. destruct (cm_ok false s) eqn:Hcm; [reflexivity|]. exfalso.
+    destruct (scan_id_comment s (")" ++ rest)%string Hok Hcm) as [n [r [En _]]]. unfold parse_instance in E. rewrite En in E.
+    destruct (expect ")" r); discriminate E.
+  - intro H. unfold parse_instance. rewrite (scan_id_none s rest H), (expect_rpar _ _ Hok). reflexivity.
 Qed.
 Lemma ccitem_lpar : forall c, exists r, ccitem_text c = String c_lpar r.
 Proof. intros [w|s|s1 n s2|s pay|s1 es sf s3]; cbn [ccitem_text append]; eexists; reflexivity. Qed.
@@ -573,6 +935,62 @@ Proof.
   change (skip_ign ("//" ++ b)%string) with (skip_go true true b). now rewrite (skip_comment_end true b H0).
 Qed.
 
+(** *** the first version of the concrete syntax (a blank, then blanks / tabs / form feeds in front of a name; nothing or ignored text that
+    begins with a blank after it) is a special case: its theorem follows from [parse_cfile] *)
+Definition centry_ok_v1 (e : centry) : bool :=
+  let 'CE io s1 a s2 b ts sf := e in
+  idsep_ok_v1 s1 && idsep_ok_v1 s2 && (if io then wf_ide a && wf_ide b else wf_id a && wf_id b) &&
+  items_ok ctriple_ok ts && sep_ok sf && aftsep_ok_v1 (first_sep ts sf).
+Definition ccitem_ok_v1 (c : ccitem) : bool :=
+  match c with
+  | CCType w => nob_ok true w
+  | CCInst0 s => match s with [] => true | _ => idsep_ok_v1 s end
+  | CCInst s1 n s2 => idsep_ok_v1 s1 && wf_id n && aftsep_ok_v1 s2
+  | CCTiming s pay => sep_ok s && pay_ok pay
+  | CCDelay s1 es sf s3 => sep_ok s1 && items_ok centry_ok_v1 es && sep_ok sf && sep_ok s3
+  end.
+Definition ctitem_ok_v1 (t : ctitem) : bool :=
+  match t with CTCell items sf => items_ok ccitem_ok_v1 items && sep_ok sf | _ => ctitem_ok t end.
+Definition cfile_ok_v1 (f : cfile) : bool :=
+  sep_ok (cf_s0 f) && items_ok ctitem_ok_v1 (cf_items f) && sep_ok (cf_sf f) && sep_ok (cf_s1 f) &&
+  match cf_tail f with Some b => no_newline b | None => true end.
+Lemma items_ok_mono {Y} (ok1 ok2 : Y -> bool) : (forall y, ok1 y = true -> ok2 y = true) ->
+  forall l, items_ok ok1 l = true -> items_ok ok2 l = true.
+Proof.
+  intros Hm. induction l as [|[s y] l IH]; intro H; [reflexivity|]. apply items_ok_cons in H. destruct H as [H1 [H2 H3]].
+  apply items_ok_cons. repeat split; [exact H1 | apply Hm, H2 | apply IH, H3].
+Qed.
+Lemma centry_ok_v1_wide : forall e, centry_ok_v1 e = true -> centry_ok e = true.
+Proof.
+  intros [io s1 a s2 b ts sf] H. cbn [centry_ok_v1] in H.
+  apply andb_true_iff in H. destruct H as [H Haft]. apply andb_true_iff in H. destruct H as [H Hsf].
+  apply andb_true_iff in H. destruct H as [H Hts]. apply andb_true_iff in H. destruct H as [H Hn].
+  apply andb_true_iff in H. destruct H as [Hs1 Hs2]. cbn [centry_ok].
+  now rewrite (bef_ok_v1_wide s1 a Hs1), (bef_ok_v1_wide s2 b Hs2), (touch_ok_v1_wide _ a s2 b Hs2), Hn, Hts, Hsf, (aft_ok_v1_wide _ b _ Haft).
+Qed.
+Lemma ccitem_ok_v1_wide : forall c, ccitem_ok_v1 c = true -> ccitem_ok c = true.
+Proof.
+  intros [w|s|s1 n s2|s pay|s1 es sf s3] H; cbn [ccitem_ok_v1] in H; cbn [ccitem_ok]; try exact H.
+  - destruct s as [|i r]; [reflexivity | apply idsep_ok_v1_wide, H].
+  - apply andb_true_iff in H. destruct H as [H H2]. apply andb_true_iff in H. destruct H as [H1 Hn].
+    now rewrite (bef_ok_v1_wide s1 n H1), Hn, (aft_ok_v1_wide _ n _ H2).
+  - apply andb_true_iff in H. destruct H as [H H3]. apply andb_true_iff in H. destruct H as [H Hsf]. apply andb_true_iff in H. destruct H as [H1 Hes].
+    now rewrite H1, (items_ok_mono _ _ centry_ok_v1_wide es Hes), Hsf, H3.
+Qed.
+Lemma ctitem_ok_v1_wide : forall t, ctitem_ok_v1 t = true -> ctitem_ok t = true.
+Proof.
+  intros [kw w|w|s1 s2 n s3|items sf] H; try exact H. cbn [ctitem_ok_v1] in H. cbn [ctitem_ok].
+  apply andb_true_iff in H. destruct H as [Hi Hsf]. now rewrite (items_ok_mono _ _ ccitem_ok_v1_wide items Hi), Hsf.
+Qed.
+Theorem cfile_ok_v1_wide : forall f, cfile_ok_v1 f = true -> cfile_ok f = true.
+Proof.
+  intros f H. unfold cfile_ok_v1 in H. unfold cfile_ok.
+  apply andb_true_iff in H. destruct H as [H Ht]. apply andb_true_iff in H. destruct H as [H H1]. apply andb_true_iff in H. destruct H as [H Hsf].
+  apply andb_true_iff in H. destruct H as [H0 Hi]. now rewrite H0, (items_ok_mono _ _ ctitem_ok_v1_wide _ Hi), Hsf, H1, Ht.
+Qed.
+Theorem parse_cfile_v1 : forall f, cfile_ok_v1 f = true -> parse_sdf (cfile_text f) = Some (cfile_abs f).
+Proof. intros f H. apply parse_cfile, cfile_ok_v1_wide, H. Qed.
+
 (** ** (a) print / parse round trip *)
 Lemma print_triple_text : forall t, print_triple t = ctriple_text (ctriple_of t).
 Proof. intros [|a [|b [|c [|d t]]]]; reflexivity. Qed.
@@ -626,16 +1044,17 @@ Lemma centry_of_ok : forall e, wf_entry e = true -> centry_ok (centry_of e) = tr
 Proof.
   intros [io a b ts] H. cbn [wf_entry] in H. apply andb_true_iff in H. destruct H as [Hn Hts]. split.
   - cbn [centry_of centry_ok]. rewrite Hn.
-    repeat (apply andb_true_iff; split); try reflexivity.
-    + exact (items_ok_map wf_triple ctriple_ok ctriple_of [IgSpace] eq_refl (fun t Ht => proj1 (ctriple_of_ok t Ht)) ts Hts).
-    + destruct ts; reflexivity.
+    assert (Hit : items_ok ctriple_ok (map (fun t => ([IgSpace], ctriple_of t)) ts) = true)
+      by exact (items_ok_map wf_triple ctriple_ok ctriple_of [IgSpace] eq_refl (fun t Ht => proj1 (ctriple_of_ok t Ht)) ts Hts).
+    rewrite Hit. rewrite (bef_ok_v1_wide [IgSpace] a eq_refl), (bef_ok_v1_wide [IgSpace] b eq_refl). cbn [touch_ok sep_ok forallb andb].
+    destruct ts; cbn [map first_sep]; [unfold aft_ok; cbn [sep_ok forallb andb]; apply orb_true_r | exact (aft_ok_v1_wide _ b [IgSpace] eq_refl)].
   - cbn [centry_of centry_abs]. f_equal.
     exact (map_abs_id wf_triple ctriple_of ctriple_abs [IgSpace] (fun t Ht => proj2 (ctriple_of_ok t Ht)) ts Hts).
 Qed.
 Lemma ccitem_of_ok : forall a, wf_carg a = true -> ccitem_ok (ccitem_of a) = true /\ ccitem_abs (ccitem_of a) = [a].
 Proof.
   intros [s|es] H; cbn [wf_carg] in H.
-  - split; [|reflexivity]. cbn [ccitem_of ccitem_ok]. now rewrite H.
+  - split; [|reflexivity]. cbn [ccitem_of ccitem_ok]. rewrite H, (bef_ok_v1_wide [IgSpace] s eq_refl). exact (aft_ok_v1_wide c_quote s [] eq_refl).
   - split.
     + cbn [ccitem_of ccitem_ok]. repeat (apply andb_true_iff; split); try reflexivity.
       exact (items_ok_map wf_entry centry_ok centry_of ind4 eq_refl (fun e He => proj1 (centry_of_ok e He)) es H).
@@ -999,6 +1418,69 @@ Example ex_file_text : cfile_text ex_file = String.concat "" [
   "(CELL (INSTANCE )(DELAY (ABSOLUTE (INTERCONNECT a0 u\[1\]/A1 (0.25:0.25:0.25)))))"; nl1;
   "(CELL (INSTANCE u\[1\]) (DELAY (ABSOLUTE (IOPATH A1 ZN (3:3:3) (4:4:4)))))"; nl1; ")"; nl1; "// end"].
 Proof. vm_compute. reflexivity. Qed.
+(* the widened separators: names on the next line, after comments that follow a line break, after "\r\n" and tabs; no separator next to the
+   quoted / parenthesised form; a comment directly after such a form; names that contain `//` or begin with `/` *)
+Definition ex_wide : cfile :=
+  {| cf_s0 := []; cf_items :=
+       [([IgNl], CTCell
+           [([IgNl], CCInst [IgNl; IgComment " name on the next line"; IgTab] "u1" [IgTab; IgComment "c"]);
+            ([IgNl], CCInst0 [IgCrNl; IgComment "nothing"]);
+            ([], CCInst [] "u2" [IgNl]);
+            ([], CCInst [IgFf] """q r""" [IgComment "directly after the quoted form"]);
+            ([IgNl], CCDelay [] [([], CE true [] "(posedge CK)" [] "Q" [([IgNl], CT3 [] "1" [] "2" [] "3")] []);
+                                 ([], CE true [IgNl; IgComment "x"; IgComment "y"; IgCrNl; IgSpace] "A" [IgTab; IgNl; IgComment "z"] "(negedge B)"
+                                        [([IgComment "after the parenthesised form"], CT0 [])] []);
+                                 ([], CE true [IgSpace] "A" [] "(negedge B)" [] []);
+                                 ([], CE false [IgTab] "a" [] """b c""" [] [IgCrNl]);
+                                 ([], CE false [IgNl] "x//y" [IgNl] "/z" [] [IgFf])] [] [])] [])];
+     cf_sf := []; cf_s1 := []; cf_tail := None |}.
+Definition ex_wide_tree : list xsarg :=
+  [XSCell [XName "u1"; XName "u2"; XName """q r""";
+           XDelay [XEntry true "(posedge CK)" "Q" [["1"; "2"; "3"]]; XEntry true "A" "(negedge B)" [[]]; XEntry true "A" "(negedge B)" [];
+                   XEntry false "a" """b c""" []; XEntry false "x//y" "/z" []]]].
+Example ex_wide_ok : cfile_ok ex_wide = true /\ cfile_ok_v1 ex_wide = false /\ cfile_abs ex_wide = ex_wide_tree /\
+  parse_sdf (cfile_text ex_wide) = Some ex_wide_tree /\
+  cfile_text ex_wide = String.concat "" [
+    "(DELAYFILE"; nl1; "(CELL"; nl1; "(INSTANCE"; nl1; "// name on the next line"; nl1; String c_tab "u1"; String c_tab "//c"; nl1; ")"; nl1;
+    "(INSTANCE"; String c_cr nl1; "//nothing"; nl1; ")(INSTANCEu2"; nl1; ")(INSTANCE"; String c_ff """q r""//directly after the quoted form"; nl1; ")"; nl1;
+    "(DELAY(ABSOLUTE(IOPATH(posedge CK)Q"; nl1; "(1:2:3))(IOPATH"; nl1; "//x"; nl1; "//y"; nl1; String c_cr nl1; " A"; String c_tab ""; nl1; "//z"; nl1;
+    "(negedge B)//after the parenthesised form"; nl1; "())(IOPATH A(negedge B))(INTERCONNECT"; String c_tab "a""b c"""; String c_cr nl1; ")(INTERCONNECT"; nl1;
+    "x//y"; nl1; "/z"; String c_ff ")))))"].
+Proof. vm_compute. repeat split; reflexivity. Qed.
+(* the boundary of the conditions on concrete texts (each is also a probe of harness/sdf_text.py CORNER_TEXTS, run through lark):
+   a comment directly after a blank in front of a name is the name; directly after a name it belongs to the name; after a line break it is
+   skipped; a name that begins with `//` vanishes after a line break; a lone "\r" or "\v" is neither name nor ignored *)
+Example sep_boundary :
+  parse_sdf ("(DELAYFILE(CELL(INSTANCE //c" ++ nl1 ++ ")))") = Some [XSCell [XName "//c"]] /\
+  parse_sdf ("(DELAYFILE(CELL(INSTANCE //c" ++ nl1 ++ "u1)))") = None /\
+  parse_sdf ("(DELAYFILE(CELL(INSTANCE" ++ nl1 ++ "//c" ++ nl1 ++ "u1)))") = Some [XSCell [XName "u1"]] /\
+  parse_sdf ("(DELAYFILE(CELL(INSTANCE" ++ nl1 ++ " //c" ++ nl1 ++ "u1)))") = None /\
+  parse_sdf ("(DELAYFILE(CELL(INSTANCE" ++ nl1 ++ " " ++ nl1 ++ "//c" ++ nl1 ++ "u1)))") = Some [XSCell [XName "u1"]] /\
+  parse_sdf ("(DELAYFILE(CELL(INSTANCE u1//c" ++ nl1 ++ ")))") = Some [XSCell [XName "u1//c"]] /\
+  parse_sdf ("(DELAYFILE(CELL(INSTANCE ""u1""//c" ++ nl1 ++ ")))") = Some [XSCell [XName """u1"""]] /\
+  parse_sdf ("(DELAYFILE(CELL(INSTANCE" ++ nl1 ++ "//y" ++ nl1 ++ ")))") = Some [XSCell []] /\
+  parse_sdf ("(DELAYFILE(CELL(INSTANCE" ++ nl1 ++ "//y)))") = None /\
+  parse_sdf ("(DELAYFILE(CELL(INSTANCE //y)))") = Some [XSCell [XName "//y"]] /\
+  parse_sdf ("(DELAYFILE(CELL(INSTANCE" ++ String c_cr "u1)))") = None /\
+  parse_sdf ("(DELAYFILE(CELL(INSTANCE u1" ++ String c_cr ")))") = None /\
+  parse_sdf ("(DELAYFILE(CELL(INSTANCE" ++ String (ascii_of_N 11) "u1)))") = None /\
+  parse_sdf ("(DELAYFILE(CELL(INSTANCE u1" ++ String (ascii_of_N 11) ")))") = None /\
+  parse_sdf ("(DELAYFILE(CELL(INSTANCE" ++ String c_cr nl1 ++ "//c" ++ nl1 ++ "//d" ++ nl1 ++ String c_tab " u1" ++ String c_tab nl1 ++ "//e" ++ nl1 ++ ")))") = Some [XSCell [XName "u1"]] /\
+  parse_sdf "(DELAYFILE(CELL(DELAY(ABSOLUTE(IOPATH A(posedge B)(1:2:3))))))" = Some [XSCell [XDelay [XEntry true "A" "(posedge B)" [["1"; "2"; "3"]]]]] /\
+  parse_sdf "(DELAYFILE(CELL(DELAY(ABSOLUTE(IOPATH AB(1:2:3)(4:5:6))))))" = Some [XSCell [XDelay [XEntry true "AB" "(1:2:3)" [["4"; "5"; "6"]]]]] /\
+  parse_sdf "(DELAYFILE(CELL(DELAY(ABSOLUTE(INTERCONNECT a""b""(1:2:3))))))" = Some [XSCell [XDelay [XEntry false "a" """b""" [["1"; "2"; "3"]]]]] /\
+  parse_sdf ("(DELAYFILE(CELL(DELAY(ABSOLUTE(IOPATH" ++ nl1 ++ "(posedge A)//c" ++ nl1 ++ "b(1:2:3))))))") = None /\
+  parse_sdf ("(DELAYFILE(CELL(DELAY(ABSOLUTE(IOPATH" ++ nl1 ++ "(posedge A)" ++ nl1 ++ "//c" ++ nl1 ++ "b//d" ++ nl1 ++ "(1:2:3))))))") = Some [XSCell [XDelay [XEntry true "(posedge A)" "b//d" [["1"; "2"; "3"]]]]] /\
+  parse_sdf ("(DELAYFILE(CELL(DELAY(ABSOLUTE(IOPATH" ++ nl1 ++ "(posedge A)" ++ nl1 ++ "//c" ++ nl1 ++ "(negedge b)//d" ++ nl1 ++ "(1:2:3))))))") = Some [XSCell [XDelay [XEntry true "(posedge A)" "(negedge b)" [["1"; "2"; "3"]]]]].
+Proof. vm_compute. repeat split; reflexivity. Qed.
+(* at the level of whole files [cfile_ok] is sufficient, not necessary: a misplaced EMPTY comment is lexed as the name `//`, and the name `//`
+   written after it is then skipped as a comment -- the text denotes the content of the value by coincidence (which is why the exactness
+   statements above are made at the scanner of a name) *)
+Definition ex_coincidence : cfile :=
+  {| cf_s0 := []; cf_items := [([], CTCell [([], CCInst [IgComment ""] "//" [IgNl])] [])]; cf_sf := []; cf_s1 := []; cf_tail := None |}.
+Example ex_coincidence_ok : cfile_ok ex_coincidence = false /\ cfile_text ex_coincidence = ("(DELAYFILE(CELL(INSTANCE//" ++ nl1 ++ "//" ++ nl1 ++ ")))")%string /\
+  parse_sdf (cfile_text ex_coincidence) = Some (cfile_abs ex_coincidence) /\ cfile_abs ex_coincidence = [XSCell [XName "//"]].
+Proof. vm_compute. repeat split; reflexivity. Qed.
 (* from the text to the DelayFile: both CELL blocks of u\[1\] are merged, numbers are 8 * value *)
 Example ex_file_delayfile : exists t df, tree_of_x (cfile_abs ex_file) = Some t /\ start_cb t = Ok df /\
   delayfile_of_text (cfile_text ex_file) = Some (Ok df) /\ df_name df = Some "top" /\
